@@ -274,3 +274,56 @@ func r16_5(c *Ctx, r *Report) {
 	}
 	r.floor(rule, 7)
 }
+
+func r16_6(c *Ctx, r *Report) {
+	const rule = "R16.6"
+	r.rule(rule, "The day star does not depend on the civil new year. Before the winter anchor a day still belongs to the descent that began on the previous summer's anchor, 180 or 240 days before the winter anchor (both occur); counting down from star nine on the summer anchor gives index 8 - (days since that anchor) mod 9. GetDayNineStar is followed for the days before a winter anchor that lies after the solstice, for both distances.")
+	fn := c.Fn(r, rule, "calendar.(*Lunar).GetDayNineStar")
+	if fn == nil || len(fn.Params) != 1 {
+		return
+	}
+	problems := map[string]bool{}
+	nearest := func(t, j0 int64) int64 {
+		j := floorModN(j0+t, 60)
+		if j > 29 {
+			return t + 60 - j
+		}
+		return t - j
+	}
+	star := func(ev *evaluator, res []interface{}, outcome string) string {
+		if outcome == "return" && len(res) == 1 {
+			if rec, ok := res[0].(absRec); ok && rec.ctor == "NewNineStar" {
+				return fmt.Sprint(rec.idx)
+			}
+			return fmt.Sprint(res[0])
+		}
+		return outcome + " " + ev.fail
+	}
+	{
+		// Before the first anchor the day still belongs to the descent that began on the previous summer's anchor,
+		// 180 or 240 days before the winter anchor (both occur). The count "down from star nine on the summer anchor"
+		// is 8 - (days since that anchor) mod 9; a formula that looks at the winter anchor alone agrees with it for
+		// 180 (a multiple of 9) and cannot agree for 240.
+		for _, gap := range []int64{180, 240} {
+			var bad2 []string
+			n2 := 0
+			for j0 := int64(31); j0 < 59; j0++ { // the winter anchor lies after the solstice day 0: day 60 - j0
+				a0 := nearest(0, j0)
+				if a0 <= 1 {
+					continue
+				}
+				for now := a0 - 9; now < a0 && len(bad2) < 3; now++ {
+					env := &dayEnv{now: now, stem: j0 % 10, jiazi: j0, gz: map[string]int64{}, terms: map[string]int64{"冬至": 0, "夏至": 182, "DONG_ZHI": 365}, problems: problems}
+					ev := &evaluator{leaf: dayLeaf(c, fn.Params[0], env), inline: inlineLibrary}
+					res, outcome := ev.run(fn, nil, nil, nil, nil)
+					n2++
+					w := floorModN(8-floorModN(now-(a0-gap), 9), 9)
+					if got := star(ev, res, outcome); got != fmt.Sprint(w) {
+						bad2 = append(bad2, fmt.Sprintf("winter anchor at day %d, summer anchor %d days before it, day %d: index %s, counting down from the summer anchor gives %d", a0, gap, now, got, w))
+					}
+				}
+			}
+			r.check(len(bad2) == 0 && n2 > 0, rule, fmt.Sprintf("calendar.(*Lunar).GetDayNineStar before the winter anchor continues the descent of a summer anchor %d days earlier", gap), c.fnPos(fn), fmt.Sprintf("%d assignments; deviations: %v", n2, headList(bad2, 2)))
+		}
+	}
+}
